@@ -4,7 +4,7 @@
    starts with its tag, the tag dispatches to its field, the field decoder reads the group back
    leaving what follows) are exactly what the C01 field lemmas provide — the Example below discharges
    them for a shipped packet. *)
-From Zvt Require Import Base Length Cp437 Encoding EncodingProps Codec Lookup CodecRoundtrip CodecTags CodecFields CodecCanon CanonClass CanonRoundtrip CanonShipped.
+From Zvt Require Import Base Length Cp437 Encoding EncodingProps Codec Lookup CodecRoundtrip CodecTags CodecFields CodecCanon CanonClass CanonRoundtrip CanonShipped Client NestedFinding.
 From Zvt.gen Require Import Layouts Tables.
 From Coq Require Import Permutation.
 Open Scope N_scope.
@@ -115,6 +115,22 @@ Example C13_ex_swapped_order :
           [4; 1; 8; 12; 18; 52; 86; 170; 35; 16; 5] = Ok (VRec [VInt 231005; VInt 123456], []).
 Proof. vm_compute. reflexivity. Qed.
 
+(* OPEN KNOWN FINDING (DESIGN 16.2, known_findings.json): the last sentence of the property is REFUTED for a tag standing inside a
+   nested container when its number is a field of the enclosing struct not seen so far: the unread rest of the container is
+   decoded as that field (amount = 123) where the bytes preceding the tag carry no amount; a tag no level knows is harmless *)
+Theorem C13_refuted_for_nested_collision :
+  dec_struct FUEL nf_outer [6; 7; 4; 0; 0; 0; 0; 1; 35] = Ok (VRec [VSome (VInt 123); VSome (VRec [VNone])], [])
+  /\ dec_struct FUEL nf_outer [6; 0] = Ok (VRec [VNone; VSome (VRec [VNone])], []).
+Proof. exact nested_collision_witness. Qed.
+Theorem C13_refuted_on_status_information :
+  exists v, fst (match run_dec "zvt::packets::StatusInformation" [4; 15; 11; 39; 0; 6; 7; 4; 0; 0; 0; 0; 1; 35] with
+                 | Some x => x | None => (Err NonImplemented, Err NonImplemented) end) = Ok (v, [])
+            /\ field_of "zvt::packets::StatusInformation" v 4 = Some (VSome (VInt 123)).
+Proof. exact nested_collision_status_information. Qed.
+Theorem C13_nested_foreign_tag_no_level_knows :
+  dec_struct FUEL nf_outer [6; 7; 9; 0; 0; 0; 0; 1; 35] = Ok (VRec [VNone; VSome (VRec [VNone])], [9; 0; 0; 0; 0; 1; 35]).
+Proof. exact nested_foreign_harmless. Qed.
+
 Print Assumptions C13_perm_invariant.
 Print Assumptions C13_duplicate_rejected_for_the_class.
 Print Assumptions C13_missing_all_named_for_the_class.
@@ -124,3 +140,6 @@ Print Assumptions C13_shipped_layouts_in_anyorder_class.
 Print Assumptions C13_duplicate_rejected.
 Print Assumptions C13_missing_all_named.
 Print Assumptions C13_unknown_tag_is_a_tail.
+Print Assumptions C13_refuted_for_nested_collision.
+Print Assumptions C13_refuted_on_status_information.
+Print Assumptions C13_nested_foreign_tag_no_level_knows.
